@@ -235,17 +235,22 @@ func H_same_object() {
 // H_catch_order: every thrown class x every ordered pair of catch clause types: the FIRST clause
 // (in source order) whose type is the object's class, an ancestor or an implemented interface wins.
 func H_catch_order() {
-	thrown := symx.Choose("thrown", 4)
-	c1, c2 := symx.Choose("clause1", 5), symx.Choose("clause2", 5)
-	names := []string{"E1", "E2", "E3", "Exception", "Throwable"}
+	thrown := symx.Choose("thrown", 5)
+	c1, c2 := symx.Choose("clause1", 8), symx.Choose("clause2", 8)
+	names := []string{"E1", "E2", "E3", "Exception", "Throwable", "Tag", "Sub", "E4"}
+	// interfaces: Sub extends Tag; E1 implements Sub (so E2 has both through its ancestor),
+	// E3 implements Tag itself, E4 extends E2 (interfaces two levels up)
 	// isA[thrown][type]
 	isA := [][]bool{
-		{true, false, false, true, true},  // E1
-		{true, true, false, true, true},   // E2 extends E1
-		{false, false, true, true, true},  // E3
-		{false, false, false, true, true}, // Exception
+		{true, false, false, true, true, true, true, false},    // E1
+		{true, true, false, true, true, true, true, false},     // E2 extends E1
+		{false, false, true, true, true, true, false, false},   // E3
+		{false, false, false, true, true, false, false, false}, // Exception
+		{true, true, false, true, true, true, true, true},      // E4 extends E2
 	}
-	src := classes + "try { try { throw new " + names[thrown] + "(\"x\"); } catch (" + names[c1] + " $e) { mark(1); } catch (" + names[c2] + " $e) { mark(2); } } catch (Throwable $e) { mark(3); }\nmark(9);"
+	thrownNames := []string{"E1", "E2", "E3", "Exception", "E4"}
+	decl := "interface Tag {} interface Sub extends Tag {}\nclass E1 extends Exception implements Sub {} class E2 extends E1 {} class E3 extends Exception implements Tag {} class E4 extends E2 {}\n"
+	src := decl + "try { try { throw new " + thrownNames[thrown] + "(\"x\"); } catch (" + names[c1] + " $e) { mark(1); } catch (" + names[c2] + " $e) { mark(2); } } catch (Throwable $e) { mark(3); }\nmark(9);"
 	got, ok := runTrace(src)
 	symx.Assert(ok, "catch-order: runs to completion")
 	if !ok {
